@@ -700,15 +700,20 @@ func ruleGCScan(c *Ctx, r *Reporter) {
 		r.anchorMissing("iteration over deleteTrackers in graveyardWorker")
 	}
 	// collected only under obj.revision <= watermark
+	// (the obligation sits on the append of a key to a list of dead keys; recording a table with an
+	// empty list only costs that table a short write transaction of its own)
 	nmu := 0
 	for _, f := range fns {
 		for _, ia := range allInstrs(f) {
-			mu, ok := ia.In.(*ssa.MapUpdate)
-			if !ok {
-				continue
+			var mu ssa.Instruction
+			if call, ok := ia.In.(*ssa.Call); ok {
+				if bi, ok := call.Call.Value.(*ssa.Builtin); ok && bi.Name() == "append" {
+					if st, ok := call.Type().Underlying().(*types.Slice); ok && namedTypeName(st.Elem()) == "Key" {
+						mu = call
+					}
+				}
 			}
-			mt, ok := mu.Map.Type().Underlying().(*types.Map)
-			if !ok || namedTypeName(mt.Key()) != "TableMeta" {
+			if mu == nil {
 				continue
 			}
 			nmu++
@@ -751,11 +756,11 @@ func ruleGCScan(c *Ctx, r *Reporter) {
 					good = true
 				}
 			}
-			r.check(good, key, c.posStr(instrPos(mu)), "a key (and its table) is queued for collection only when obj.revision <= lowWatermark", "the collector queues keys/tables without the `revision <= lowWatermark` test: deletions not yet observed are collected, or tables without dead objects get locked by the collector's write transaction")
+			r.check(good, key, c.posStr(instrPos(mu)), "a key (and its table) is queued for collection only when obj.revision <= lowWatermark", "the collector queues a key without the `revision <= lowWatermark` test: deletions not yet observed by every iterator are collected")
 		}
 	}
 	if nmu == 0 {
-		r.anchorMissing("toBeDeleted[...] update in graveyardWorker")
+		r.anchorMissing("append of a dead key in graveyardWorker")
 	}
 	// the collector locks one table at a time, and only tables with collected keys: every WriteTxn
 	// takes a single table, the key of the iteration over toBeDeleted it sits in
